@@ -11,6 +11,7 @@ Variable parse_tree : mapper -> tz -> res (option T * mapper * tz).
 Variable set_label : T -> option str -> T.
 Variable add_comments : T -> list str -> T.
 Variable vl : bool.
+Variable vs : bool.
 Variables va vk : bool.
 
 (* the list loop is a function of what the iterator loop does *)
@@ -31,7 +32,7 @@ Proof.
   - rewrite app_nil_r. reflexivity.
 Qed.
 
-Notation L := (treelist_read T lower upper parse_tree set_label add_comments va vl Newick).
+Notation L := (treelist_read T lower upper parse_tree set_label add_comments va vl vs Newick).
 Notation Y := (yield_from_files T lower upper parse_tree set_label add_comments vl Newick).
 
 Lemma newick_list_of_yield : forall ns0 d,
@@ -49,7 +50,7 @@ Qed.
 
 (* Tree.get and TreeList.get with offsets are selections from the list route's result *)
 Lemma newick_tree_get : forall c k d,
-  tree_get T lower upper parse_tree set_label add_comments va vk vl Newick c k d =
+  tree_get T lower upper parse_tree set_label add_comments va vk vl vs Newick c k d =
   match L [] d with
   | Ok (ts, _) => select_tree T set_label vk [ts] (match c with Some c => c | None => 0 end)
                               (match k with Some k => k | None => 0 end)
@@ -62,7 +63,7 @@ Proof.
 Qed.
 
 Lemma newick_list_off : forall c k d, (c <> None \/ k <> None) ->
-  treelist_get_off T lower upper parse_tree set_label add_comments va vl Newick c k d =
+  treelist_get_off T lower upper parse_tree set_label add_comments va vl vs Newick c k d =
   match L [] d with
   | Ok (ts, _) => select_offsets T [ts] (match c with Some c => c | None => 0 end) k
   | Err e => Err e
@@ -75,7 +76,7 @@ Proof.
 Qed.
 
 Lemma newick_dataset : forall a d,
-  dataset_get T lower upper parse_tree set_label add_comments vl Newick a d =
+  dataset_get T lower upper parse_tree set_label add_comments vl vs Newick a d =
   match L [] d with
   | Ok (ts, _) => Ok [ts]
   | Err e => Err e
@@ -149,18 +150,18 @@ Theorem routes_agree_newick_l : forall (ns0 : list str) (d : doc),
      label keyword assigned), IndexError beyond the end, ValueError for an empty source *)
   (forall ts ns, L [] d = Ok (ts, ns) ->
      (forall c k t, (c = None \/ c = Some 0) -> nth_error ts k = Some t ->
-        tree_get T lower upper parse_tree set_label add_comments va vk vl Newick c (Some (Z.of_nat k)) d
+        tree_get T lower upper parse_tree set_label add_comments va vk vl vs Newick c (Some (Z.of_nat k)) d
         = Ok (got_label T set_label vk t))
      /\ (forall c t, (c = None \/ c = Some 0) -> nth_error ts 0 = Some t ->
-        tree_get T lower upper parse_tree set_label add_comments va vk vl Newick c None d = Ok (got_label T set_label vk t))
+        tree_get T lower upper parse_tree set_label add_comments va vk vl vs Newick c None d = Ok (got_label T set_label vk t))
      /\ (forall c k, (c = None \/ c = Some 0) -> ts <> [] -> Z.of_nat (length ts) <= k ->
-        tree_get T lower upper parse_tree set_label add_comments va vk vl Newick c (Some k) d = Err IndexErr)
+        tree_get T lower upper parse_tree set_label add_comments va vk vl vs Newick c (Some k) d = Err IndexErr)
      /\ (forall c k, (c = None \/ c = Some 0) -> ts = [] ->
-        tree_get T lower upper parse_tree set_label add_comments va vk vl Newick c k d = Err ValueErr))
+        tree_get T lower upper parse_tree set_label add_comments va vk vl vs Newick c k d = Err ValueErr))
   /\
   (* and Tree.get fails like the list route when that fails *)
   (forall e c k, L [] d = Err e ->
-     tree_get T lower upper parse_tree set_label add_comments va vk vl Newick c k d = Err e).
+     tree_get T lower upper parse_tree set_label add_comments va vk vl vs Newick c k d = Err e).
 Proof.
   intros ns0 d. split; [|split; [|split]].
   - intros out r HY. rewrite newick_list_of_yield, HY. destruct r; reflexivity.
